@@ -270,6 +270,13 @@ def run_als(case, ctx):
     y = rng.normal(size=m) * 10.0 ** rng.uniform(-2, 2)
     lamb = float(10.0 ** rng.uniform(-4, 0))
     w = rng.uniform(0.5, 2, size=m) if rng.random() < 0.4 else None
+    if w is not None and rng.random() < 0.4:
+        # exact zeros: scattered, and on every sample of one slice (the ridge
+        # minimiser of a slice without weight is zero)
+        w[rng.random(m) < 0.2] = 0.
+        k0 = int(rng.integers(d))
+        w[I[:, k0] == int(rng.integers(n[k0]))] = 0.
+        ctx.event('zero-weights')
     Y0 = gen.cores(rng, n, r, 'normal')
     nswp = int(rng.integers(1, 6))
     traj = []
